@@ -11,7 +11,7 @@ import z3
 from .. import common
 from ..common import Report, Finding
 from ..csem import ops
-from ..pyvc.sym import prove as zprove, model_value, to_int, as_sstr
+from ..pyvc.sym import prove as zprove, model_value, to_int, as_sstr, Unsupported as Unsupported_, NeedFork as NeedFork_
 from ..pyvc.driver import Program, explore, call_function
 from ..pyvc.interp import SObj
 
@@ -271,6 +271,12 @@ def main():
     rep.trust("L-paren is not needed: the emitted C is re-parsed with real C precedence (vf/csem/cparse.py) per expression",
               "the expression printer/evaluator of vf/props/c14.py (intended meaning of the generated expression text under C precedence)")
     integer_containing_proofs(rep, nmfu, program)
+    # rendering of EVERY expression tree: structural induction, one obligation set per node class (pyvc on the real AST; recursive calls by contract)
+    from . import c14_proofs
+    try:
+        c14_proofs.prove(rep, nmfu, program)
+    except (Unsupported_, NeedFork_) as e:
+        rep.undecided_ob("C14/pyvc/CodegenCtx._generate_code_for_int_expr/engine", f"outside the modelled Python subset: {type(e).__name__}: {e}")
     thorough = common.tier() == "thorough"
     ps = programs(1500 if thorough else 160, common.seed())
     _CTX["programs"] = ps
@@ -302,7 +308,10 @@ def main():
     text = (f"{len(ps)} generated programs, each with 5 expressions (int assignment, bool assignment, if on a bool expression, character append, if on an int expression) over all operators "
             "(|| && | ^ & == != < > <= >= << >> + - * / % ! unary-) and atoms (outputs of several widths, .len, indexing with the out-of-range default, $last, dec/hex/bin/char literals, true/false), printed with minimal parentheses. "
             "Per expression: z3 proves the tree nmfu parsed equals the intended tree under C precedence/associativity, and csem+z3 prove the emitted C (parsed with real C precedence) equals nmfu's tree; "
-            "declared C types checked against width/signedness; _integer_containing proved for all maxval. Bounded over the generated expressions.")
+            "declared C types checked against width/signedness; _integer_containing proved for all maxval. Bounded over the generated expressions. "
+            "For ALL expression trees: _generate_code_for_int_expr proved by structural induction - per node class, the real function body executed from its AST with recursive calls replaced by the function's own contract "
+            "renders text in which every child is directly enclosed in ( ) or [ ] and which parses, under the real C precedence table, to exactly the node's operator tree (children in order, left fold, the node's operators); "
+            "atoms render to the documented lvalues; indexing is the guarded read. Enumerated completely for 1-4 operands, every operator, every use context, symbolic flags.")
     return rep.finish(text, checker_cmd="./check C14")
 
 
